@@ -9,6 +9,8 @@ use serde::{Deserialize, Serialize};
 
 #[derive(Clone, Debug, Serialize, Deserialize)]
 pub enum Seq {
+    /// every plaintext length 0..=n (aad length walks along): density instead of boundaries
+    Dense { n: usize },
     /// one long sequence walking the (pt length x aad length) grid
     Grid { pt_lens: Vec<usize>, aad_lens: Vec<usize> },
     /// an explicit short sequence of (pt length, aad length)
@@ -82,6 +84,11 @@ impl Part for C01 {
                         v.push(Case { suite, mode, info_len, psk_len, psk_id_len, seq: Seq::Grid { pt_lens, aad_lens }, fill, tag });
                     }
                 }
+                // dense length sweep for one (KEM, KDF) pair per AEAD
+                if suite.kem == crate::refmodel::Kem::X25519 && suite.kdf == crate::refmodel::Kdf::Sha256 && (mode == Mode::Base || t) {
+                    tag += 1;
+                    v.push(Case { suite, mode, info_len: 7, psk_len: if mode.has_psk() { 32 } else { 0 }, psk_id_len: if mode.has_psk() { 5 } else { 0 }, seq: Seq::Dense { n: if t { 2200 } else { 1100 } }, fill: Fill::Mix, tag });
+                }
                 // short sequences: every shape at positions 0,1,2 after every other shape
                 let do_short = t || (suite.kem == crate::refmodel::Kem::X25519 && suite.kdf == crate::refmodel::Kdf::Sha384)
                     || (suite.kem == crate::refmodel::Kem::P256 && suite.kdf == crate::refmodel::Kdf::Sha256 && suite.aead == crate::refmodel::Aead::ChaCha20Poly1305);
@@ -108,6 +115,7 @@ impl Part for C01 {
         let nt = c.suite.aead.nt();
         let shapes: Vec<(usize, usize)> = match &c.seq {
             Seq::Short(s) => s.clone(),
+            Seq::Dense { n } => (0..=*n).map(|l| (l, (l * 5 + 1) % 300)).collect(),
             Seq::Grid { pt_lens, aad_lens } => {
                 let mut s = vec![];
                 for &p in pt_lens {
